@@ -20,9 +20,11 @@ TOP = ["class Box:", "    def __init__(self, v):", "        self.v = v", "      
        "def lit2():", "    if choice():", "        return 1", "    return 2", "",
        "def via_alias(o, w):", "    q = o", "    if choice():", "        q.f = w", "    else:", "        q.f = 4", "    return 0", "",
        "def alias_exits(o, w):", "    q = o", "    if choice():", "        q.f = w", "        return o", "    q.f = 8", "    return o", "",
-       "def plain_arms(o, w):", "    if choice():", "        o.f = w", "    else:", "        o.f = 6", "    return 0", ""]
+       "def plain_arms(o, w):", "    if choice():", "        o.f = w", "    else:", "        o.f = 6", "    return 0", "",
+       "def mknest(a):", "    outer = Box(0)", "    inner = Box(0)", "    outer.g = inner", "    inner.f = a", "    return outer", "",
+       "def touch2(p, q, w):", "    p.g = q", "    q.f = w", "    return 0", ""]
 
-INT_ONLY = {"two_multi_operands", "multi_right_operand", "join_two_reads", "join_alias_reads", "arith_add", "arith_sub_neg", "arith_mul", "arith_zero", "add_call", "two_sites_add", "sub3",
+INT_ONLY = {"const_plus_maybe_unknown", "maybe_unknown_plus_const", "nested_written_after_store", "nested_param_written_after_store", "two_multi_operands", "multi_right_operand", "join_two_reads", "join_alias_reads", "arith_add", "arith_sub_neg", "arith_mul", "arith_zero", "add_call", "two_sites_add", "sub3",
             "callee_alias_two_arms", "callee_alias_two_exits", "callee_param_two_arms", "branch_alias_field", "two_sites_wrap", "two_sites_wrap2", "two_sites_fill", "maybe_receiver"}
 STR_ONLY = {"concat", "concat_left", "concat_digits", "repeat"}
 
@@ -117,6 +119,14 @@ def step(name, cur, nv, i, kind="int"):
         return ["if choice():", "    a%d = %s" % (i, cur), "else:", "    a%d = 5" % i, "if choice():", "    b%d = 10" % i, "else:", "    b%d = 20" % i, "%s = a%d + b%d" % (nv, i, i)]
     if name == "multi_right_operand":
         return ["if choice():", "    a%d = %s" % (i, cur), "else:", "    a%d = 5" % i, "%s = 7 - a%d" % (nv, i)]
+    if name == "const_plus_maybe_unknown":      # the second operand is a constant on one path and the result of external code on the other
+        return ["if choice():", "    b%d = %s" % (i, cur), "else:", "    b%d = ext()" % i, "%s = 2 + b%d" % (nv, i)]
+    if name == "maybe_unknown_plus_const":
+        return ["if choice():", "    b%d = %s" % (i, cur), "else:", "    b%d = ext()" % i, "%s = b%d + 2" % (nv, i)]
+    if name == "nested_written_after_store":    # a callee stores an object in another one, writes the inner one afterwards and returns the outer one
+        return ["o%d = mknest(%s)" % (i, cur), "m%d = o%d.g" % (i, i), "%s = m%d.f" % (nv, i)]
+    if name == "nested_param_written_after_store":
+        return ["p%d = Box(0)" % i, "q%d = Box(0)" % i, "r%d = touch2(p%d, q%d, %s)" % (i, i, i, cur), "m%d = p%d.g" % (i, i), "%s = m%d.f" % (nv, i)]
     if name == "branch_alias_field":
         return ["o%d = Box(0)" % i, "p%d = o%d" % (i, i), "if choice():", "    o%d.f = %s" % (i, cur), "%s = p%d.f" % (nv, i)]
     if name == "two_exits":
@@ -131,12 +141,13 @@ STEPS = ["copy", "arith_add", "arith_sub_neg", "arith_mul", "arith_zero", "conca
          "param_read", "returned_object", "branch", "branch_one_arm", "branch_field", "branch_alias_field", "two_exits", "loop_once",
          "sub3", "concat_digits", "digits_concat", "repeat", "maybe_receiver", "nested_alias_param", "two_literal_exits",
          "callee_alias_two_arms", "callee_alias_two_exits", "callee_param_two_arms", "two_sites_wrap", "two_sites_fill", "two_sites_wrap2",
-         "join_two_reads", "join_alias_reads", "two_multi_operands", "multi_right_operand"]
+         "join_two_reads", "join_alias_reads", "two_multi_operands", "multi_right_operand",
+         "const_plus_maybe_unknown", "maybe_unknown_plus_const", "nested_written_after_store", "nested_param_written_after_store"]
 # two-step chains that are always run (shapes known to need both steps)
 CORE_TWO = [("branch", "sub3"), ("branch", "arith_zero"), ("branch", "arith_add"), ("branch", "concat"), ("two_exits", "arith_add"), ("branch", "field"),
             ("branch", "ident_call"), ("field", "branch"), ("arith_sub_neg", "arith_add"), ("arith_sub_neg", "arith_mul"), ("arith_sub_neg", "add_call"), ("alias_write", "param_read"), ("returned_object", "alias_write"), ("branch_one_arm", "add_call"),
             ("two_exits", "two_multi_operands"), ("join_two_reads", "arith_add"), ("branch_field", "join_two_reads")]
-C09_EXCLUDED = {"list_elem", "list_write", "loop_once"}      # arrays are collapsed by design; loops are outside C09
+C09_EXCLUDED = {"list_elem", "list_write", "loop_once", "const_plus_maybe_unknown", "maybe_unknown_plus_const"}      # arrays are collapsed by design; loops are outside C09
 
 
 class Chain:
